@@ -212,22 +212,25 @@ def cloneAt : Ctx → Bool
   | .define => true         -- statements.go:736  `lhs = $clone(rhs, T)` (skipped for a composite literal rhs :726-728)
   | .arg => true            -- utils.go:167       translateArgs → translateImplicitConversionWithCloning
   | .rangeValue => true     -- statements.go:253  translateAssign(s.Value, _ref[_i], define) → :736
-  | .rangeOperand => false  -- statements.go:192  `_ref = X` (no copy of an array operand)
+  | .rangeOperand => true   -- statements.go RangeStmt: `_ref = $clone(X, T)` for an array VALUE operand with an iteration value (repair of C07-range-array-operand)
   | .send => true           -- statements.go:476, 499
   | .mapStore => true       -- statements.go:717  (key: 712)
   | .litElem => true        -- expressions.go:147, 170, 181, 192
-  | .box => false           -- expressions.go:1318-1323 `new T(x)` / `new x.constructor.elem(x)` (no `$clone`)
+  | .box => true            -- expressions.go translateImplicitConversion, case Interface: `new T($clone(x, T))` for array and struct values (repair of C07-box-no-clone)
   | .recvValue => true      -- expressions.go:963 makeReceiver
   | .methodValue => true    -- expressions.go:616 `$methodVal(makeReceiver(e), …)` → :963
-  | .boundCall => false     -- prelude.js:119-132 `$methodVal`: `method.bind(recv)`; functions.go:138-202 the method body works on `this` (no copy in the callee)
-  | .ifaceCall => false     -- functions.go:185-201: dynamic dispatch reaches the body / the `this.$val`, `this.$get()` proxies with the boxed object itself
+  | .boundCall => true      -- functions.go translateFunctionBody prologue: `recv = $clone(this[.$val], T)` for array/struct receivers (repair of C07-method-value-shared-receiver)
+  | .ifaceCall => true      -- same prologue: the callee copies its receiver whoever calls it (repair of C07-iface-dispatch-shared-receiver)
   | .result => false        -- statements.go:786  translateResults → translateImplicitConversion
   | .recv => false          -- expressions.go `$recv` result `[0]`
   | .mapLoad => false       -- expressions.go map index: `entry.v`
   | .unbox => false         -- `$assertType(x, T)` returns `x.$val`
 
-/-- the new-location contexts for which the translator emits NO copy (each one is a recorded defect) -/
-def nonCloning : List Ctx := [.box, .rangeOperand, .boundCall, .ifaceCall]
+/-- the new-location contexts for which the translator emitted NO copy before the repairs -/
+def nonCloningBeforeRepair : List Ctx := [.box, .rangeOperand, .boundCall, .ifaceCall]
+
+/-- the clone table of the translator BEFORE the repairs (kept for the "repaired defects" section of GV.Props.C07) -/
+def cloneAtBeforeRepair (c : Ctx) : Bool := cloneAt c && !(nonCloningBeforeRepair.contains c)
 
 /-- expressions: a location `x.path`, possibly passed through temporary contexts -/
 inductive Expr where
